@@ -46,7 +46,7 @@ func Read(fd io.Reader) (*Metrics, error) {
 	scanner.Buffer(nil, math.MaxInt)
 	for scanner.Scan() {
 		line := scanner.Text()
-		if strings.HasPrefix(line, "EndCharMetrics") {
+		if ff := strings.Fields(line); len(ff) > 0 && strings.HasPrefix(ff[0], "EndCharMetrics") {
 			charMetrics = false
 			continue
 		}
